@@ -3,6 +3,10 @@ import JunoModel.C11.Model
 import JunoModel.C11.ModelGo
 import JunoModel.C11.ModelTransport
 import JunoModel.C11.ModelPretty
+import JunoModel.C11.ModelPrettyText
+import JunoModel.C11.ModelGate
+import JunoModel.C11.ModelConn
+import JunoModel.C11.ModelRegister
 /-!
 Line-protocol driver for the C11 model (`lake build c11drv`).
 
@@ -20,6 +24,20 @@ Requests:
   `ws <k> { <leadWs> <firstIsBracket> (x | v <tokens>) }` -> tokens of `[[wire...], log]` or `dk`
   `pretty <skippedBytes> <k> <chunk length>*k <hex of all bytes read> (syntax <off> | type <off> | eof | other)`
         -> `none` | `<line> <col>`  (pretty_error.go: where the caret goes)
+  `ptext <skippedBytes> <k> <chunk length>*k <hex of all bytes read> (syntax <off> | type <off> | eof | other)
+         <hex err.Error()> <hex Field> <hex Type.String()> <hex Value>`
+        -> `panic` | segments `b<hex>` (literal bytes) `q<hex code point>` (%q of a rune) `Q<hex>` (%q of a string)
+           (pretty_error.go: the whole `data` text of a -32700 answer)
+  `gate <maxConcurrent> <maxQueue> <ops: letters a (Acquire, live ctx) d (Acquire, ctx done) r (Release) x (a waiter's ctx is done)>`
+        -> `max=<maxRequests>` then per op `<admitted|queued|busy|ctxErr|noop>:<Running>/<Queued>/<Rejected>`  (gate.go)
+  `httpg <admitted|busy|deadline|gone> <get|post|other> <pathIsRoot> <leadWs> <firstIsBracket> (x | v <tokens>)`
+        -> `<status> <json 0|1> <dropped 0|1> <retryAfter 0|1> <hex of the http.Error text> ` + tokens of `[[body]?, log]`
+  `conn <hasResponse 0|1> <handleErr 0|1> <writeOk 0|1> <number of pushes>`
+        -> wire tokens (`r` response, `p<k>` push k) `|` refused pushes  (HandleReadWriter + connection.Write)
+  `limit <max> <ops: letters c (connect) d (a connection ends) u (a request that is no websocket handshake)>` -> per op `1` (upgraded / done) or `0` (503)
+  `reg <k> { <name s-token> <nparams> <isFunc 0|1> <ins: letters c (context) o (other), or -> <outs: letters e (*Error) h (http.Header) o (other), or -> }`
+        -> `ok <registered>` | `err:<notFunc|paramCount|returnCount|secondNotError|thirdNotError|secondNotHeader> <registered>`
+           (RegisterMethods on an empty server: how many methods are registered afterwards)
   `f64 <number literal>` -> what json.Marshal writes for the float64 it parses to, or `err`
   `defaults` -> `<peekLimit n|-> <nullForNilResult 0|1> <silentNotificationErrors 0|1>` of `junoCfg`
   `felt <s-token>` -> `none` | `<value hex> <bitLen> <maxbits64 0|1> <maxbits128 0|1> <version03 0|1>`
@@ -185,6 +203,58 @@ def httpMethod? : String → Option HttpMethod
   | "get" => some .get | "post" => some .post | "other" => some .other
   | _ => none
 
+/-- `<skipped> <k> <len>*k <hex> (syntax o | type o | eof | other) rest…` -/
+def parsePrettyArgs : List String → Option (Nat × Pretty.Win × Pretty.DecodeErr × List String)
+  | sk :: k :: rest => do
+    let skipped ← natOfChars sk.toList
+    let k ← natOfChars k.toList
+    if rest.length < k + 2 then none
+    let ls ← (rest.take k).mapM (fun w => natOfChars w.toList)
+    match rest.drop k with
+    | hex :: errToks =>
+      let bytes ← hexToBytes? hex
+      if ls.foldl (· + ·) 0 != bytes.length then none
+      let chunks : List (List UInt8) := (ls.foldl (fun (acc : List (List UInt8) × List UInt8) n =>
+        (acc.1 ++ [acc.2.take n], acc.2.drop n)) ([], bytes)).1
+      let win := Pretty.Win.writes {} chunks
+      match errToks with
+      | "syntax" :: o :: more => (o.toInt?).map (fun o => (skipped, win, Pretty.DecodeErr.syntax o, more))
+      | "type" :: o :: more => (o.toInt?).map (fun o => (skipped, win, Pretty.DecodeErr.type o, more))
+      | "eof" :: more => some (skipped, win, .eof, more)
+      | "other" :: more => some (skipped, win, .other, more)
+      | _ => none
+    | [] => none
+  | _ => none
+
+def natHex (n : Nat) : String := String.ofList (Nat.toDigits 16 n)
+
+/-- adjacent literal segments are merged -/
+def renderText (t : Pretty.Text) : String :=
+  let rec go : List Pretty.Seg → List UInt8 → List String → List String
+    | [], cur, acc => (if cur.isEmpty then acc else ("b" ++ bytesToHex cur) :: acc)
+    | .lit bs :: r, cur, acc => go r (cur ++ bs) acc
+    | .qrune cp :: r, cur, acc =>
+      go r [] (("q" ++ natHex cp) :: (if cur.isEmpty then acc else ("b" ++ bytesToHex cur) :: acc))
+    | .qstr bs :: r, cur, acc =>
+      go r [] (("Q" ++ bytesToHex bs) :: (if cur.isEmpty then acc else ("b" ++ bytesToHex cur) :: acc))
+  let toks := (go t [] []).reverse
+  if toks.isEmpty then "b-" else " ".intercalate toks
+
+partial def parseDecls : Nat → List String → Option (List MethodDecl × List String)
+  | 0, rest => some ([], rest)
+  | k + 1, n :: np :: f :: ins :: outs :: rest => do
+    let name ← nameTok? n
+    let np ← natOfChars np.toList
+    let f ← bool01? f
+    let ins ← (if ins == "-" then some [] else ins.toList.mapM (fun c => match c with
+      | 'c' => some InTy.ctx | 'o' => some InTy.other | _ => none))
+    let outs ← (if outs == "-" then some [] else outs.toList.mapM (fun c => match c with
+      | 'e' => some OutTy.errPtr | 'h' => some OutTy.header | 'o' => some OutTy.other | _ => none))
+    let (ds, r) ← parseDecls k rest
+    pure ({ method := { name, params := (List.range np).map (fun i => { name := s!"p{i}" }) },
+            sig := { isFunc := f, ins, outs } } :: ds, r)
+  | _, _ => none
+
 def step (st : St) (line : String) : St × String :=
   match words line with
   | ["cfg", bd, pk, nn, sn, ie, li, ng] =>
@@ -227,32 +297,72 @@ def step (st : St) (line : String) : St × String :=
           render (.arr [.arr (wsWire outs), logJson (wsLog outs), .bool (wsClosed outs)]))
       | _ => (st, "bad-op")
     | none => (st, "bad-op")
-  | "pretty" :: sk :: k :: rest =>
-    match natOfChars sk.toList, natOfChars k.toList with
-    | none, _ => (st, "bad-op")
-    | _, none => (st, "bad-op")
-    | some skipped, some k =>
-      let lens := (rest.take k).map (fun w => natOfChars w.toList)
-      match rest.drop k with
-      | hex :: errToks =>
-        let err : Option Pretty.DecodeErr := match errToks with
-          | ["syntax", o] => o.toInt?.map Pretty.DecodeErr.syntax
-          | ["type", o] => o.toInt?.map Pretty.DecodeErr.type
-          | ["eof"] => some .eof
-          | ["other"] => some .other
-          | _ => none
-        match hexToBytes? hex, err with
-        | some bytes, some err =>
-          if lens.any Option.isNone then (st, "bad-op") else
-          let ls := lens.filterMap id
-          if ls.foldl (· + ·) 0 != bytes.length then (st, "bad-op") else
-          let chunks : List (List UInt8) := (ls.foldl (fun (acc : List (List UInt8) × List UInt8) n =>
-            (acc.1 ++ [acc.2.take n], acc.2.drop n)) ([], bytes)).1
-          match Pretty.position (Pretty.Win.writes {} chunks) err skipped with
-          | none => (st, "none")
-          | some p => (st, s!"{p.line} {p.col}")
-        | _, _ => (st, "bad-op")
-      | _ => (st, "bad-op")
+  | "pretty" :: rest =>
+    match parsePrettyArgs rest with
+    | some (skipped, win, err, []) =>
+      match Pretty.position win err skipped with
+      | none => (st, "none")
+      | some p => (st, s!"{p.line} {p.col}")
+    | _ => (st, "bad-op")
+  | "ptext" :: rest =>
+    match parsePrettyArgs rest with
+    | some (skipped, win, err, [t, f, ty, v]) =>
+      match hexToBytes? t, hexToBytes? f, hexToBytes? ty, hexToBytes? v with
+      | some t, some f, some ty, some v =>
+        match Pretty.prettyParseError? win skipped { kind := err, text := t, field := f, tyName := ty, value := v } with
+        | none => (st, "panic")
+        | some txt => (st, renderText txt)
+      | _, _, _, _ => (st, "bad-op")
+    | _ => (st, "bad-op")
+  | ["gate", c, q, ops] =>
+    match natOfChars c.toList, natOfChars q.toList,
+      ops.toList.mapM (fun ch => match ch with
+        | 'a' => some (Gate.Op.acquire false) | 'd' => some (Gate.Op.acquire true)
+        | 'r' => some Gate.Op.release | 'x' => some Gate.Op.waiterCtxDone | _ => none) with
+    | some c, some q, some ops =>
+      let g := Gate.St.new c q
+      let outName : Gate.Outcome → String
+        | .admitted => "admitted" | .queued => "queued" | .busy => "busy" | .ctxErr => "ctxErr" | .noop => "noop"
+      (st, " ".intercalate (s!"max={g.maxRequests}" ::
+        (g.trace ops).map (fun (o, r, qd, rj) => s!"{outName o}:{r}/{qd}/{rj}")))
+    | _, _, _ => (st, "bad-op")
+  | "httpg" :: adm :: m :: root :: rest =>
+    let adm? : Option Admission := match adm with
+      | "admitted" => some .admitted | "busy" => some .busy | "deadline" => some .deadlineWhileQueued
+      | "gone" => some .clientGone | _ => none
+    match adm?, httpMethod? m, bool01? root, parseInput rest with
+    | some adm, some m, some root, some (inp, []) =>
+      (st, both st fun env =>
+        let g := serveHTTPGated adm st.cfg env st.tbl { method := m, pathIsRoot := root, body := inp }
+        let r := g.http
+        let body : Json := match r.body with | none => .arr [] | some b => .arr [b]
+        let txt := match g.text with | none => "-" | some t => bytesToHex t.toUTF8.toList
+        s!"{r.status} {if r.json then 1 else 0} {if r.dropped then 1 else 0} {if g.retryAfter then 1 else 0} {txt} " ++
+          render (.arr [body, logJson r.log]))
+    | _, _, _, _ => (st, "bad-op")
+  | ["conn", hr, he, wo, np] =>
+    match bool01? hr, bool01? he, bool01? wo, natOfChars np.toList with
+    | some hr, some he, some wo, some np =>
+      let (wire, refused) := Conn.outcome { hasResponse := hr, handleErr := he, writeOk := wo } (List.range np)
+      let w := wire.map (fun m => match m with | .response => "r" | .pushed k => s!"p{k}")
+      (st, " ".intercalate (w ++ ["|"] ++ refused.map (fun k => s!"p{k}")))
+    | _, _, _, _ => (st, "bad-op")
+  | ["limit", mx, ops] =>
+    match natOfChars mx.toList, ops.toList.mapM (fun ch => match ch with
+        | 'c' => some Conn.LimitOp.connect | 'd' => some Conn.LimitOp.disconnect
+        | 'u' => some Conn.LimitOp.badUpgrade | _ => none) with
+    | some mx, some ops =>
+      (st, " ".intercalate (((Conn.Limit.mk mx 0).trace ops).map (fun b => if b then "1" else "0")))
+    | _, _ => (st, "bad-op")
+  | "reg" :: k :: rest =>
+    match (natOfChars k.toList).bind (fun k => parseDecls k rest) with
+    | some (ds, []) =>
+      let (tbl, err) := registerMethods [] ds
+      let cls : RegErr → String
+        | .notFunc => "notFunc" | .paramCount => "paramCount" | .returnCount => "returnCount"
+        | .secondNotError => "secondNotError" | .thirdNotError => "thirdNotError" | .secondNotHeader => "secondNotHeader"
+      (st, match err with | none => s!"ok {tbl.length}" | some e => s!"err:{cls e} {tbl.length}")
+    | _ => (st, "bad-op")
   | ["f64", t] => (st, match F64.roundTrip t with | some r => r | none => "err")
   | ["defaults"] =>
     let b (x : Bool) : Nat := if x then 1 else 0
